@@ -437,9 +437,12 @@ func Table(t *rapid.T, cfg Cfg) model.TableSpec {
 		seenRoot[root.String()] = true
 		s := model.ServiceSpec{Root: root}
 		if chance(t, "rootform", 25) {
-			if len(root) == 0 {
+			switch {
+			case len(root) == 0:
 				s.RootForm = 2
-			} else {
+			case root[0].Kind != model.Lit && chance(t, "slashless", 50):
+				s.RootForm = 3
+			default:
 				s.RootForm = 1
 			}
 		}
@@ -451,6 +454,19 @@ func Table(t *rapid.T, cfg Cfg) model.TableSpec {
 		for ri := 0; ri < nr; ri++ {
 			id := "s" + strconv.Itoa(len(tb.Services)) + "r" + strconv.Itoa(ri)
 			s.Routes = append(s.Routes, c.route(t, id, s.Routes))
+		}
+		if cfg.Media && len(s.Routes) >= 2 && chance(t, "mediahistory", 15) {
+			// the service's default media types are changed after the first k routes were registered
+			k := rapid.IntRange(1, len(s.Routes)-1).Draw(t, "latefrom")
+			for i := k; i < len(s.Routes); i++ {
+				s.Routes[i].Late = true
+			}
+			if len(s.Consumes) == 0 && len(s.Produces) == 0 {
+				s.Consumes = c.mediaList(t, "svcconsumes")
+				s.Produces = c.mediaList(t, "svcproduces")
+			}
+			s.Consumes2 = c.mediaList(t, "svcconsumes2")
+			s.Produces2 = c.mediaList(t, "svcproduces2")
 		}
 		tb.Services = append(tb.Services, s)
 	}
@@ -661,7 +677,7 @@ func Request(t *rapid.T, tb model.TableSpec, cfg Cfg) model.ReqSpec {
 	case x < 9:
 		acc = pick(t, "acc", MediaPool) + ";q=0.8, " + pick(t, "acc2", append([]string{"*/*", "text/html"}, MediaPool...))
 	default:
-		acc = pick(t, "accodd", []string{"*/*", "text/*", "application/*", "APPLICATION/JSON", "application/json;q=0", " application/xml", "application/json , application/xml", "", "text/html"})
+		acc = pick(t, "accodd", []string{"*/*", "text/*", "application/*", "APPLICATION/JSON", "application/json;q=0", " application/xml", "application/json , application/xml", "", "text/html", "application/json;q", "application/xml ;q=0.9", "*/*;q"})
 	}
 	// conditions
 	for _, c := range pr.r.Conds {
